@@ -809,7 +809,7 @@ func (c *ctx) valueWF(v *T, t types.Type) *T {
 		z := c.I(0)
 		intT := types.Typ[types.Int]
 		le := func(a, b *T) *T { return c.cmp(token.LEQ, a, b, intT) }
-		return mkAnd(le(z, c.slOff(v)), le(c.slOff(v), c.I(1<<62)), le(z, c.slLen(v)), le(c.slLen(v), c.slCap(v)), le(c.slCap(v), c.I(1<<62)),
+		return mkAnd(le(z, c.slOff(v)), le(z, c.slLen(v)), le(c.slLen(v), c.slCap(v)), le(c.slCap(v), c.I(1<<62)),
 			mkImp(mkEq(c.slRef(v), refConst(0)), mkEq(c.slCap(v), z)))
 	case *types.Struct:
 		si := c.structOf(t)
